@@ -9,4 +9,14 @@ CONSTANTS
   Shapes = {"default", "last"}
   DepKindPatterns <- DepKinds2
   LabelPatterns <- Labels2
-INVARIANTS TypeOK ErrorsExactlyWhenDocumented InputsExact FeeConservation SharesSumToFee ScriptsIntended RedeemerAmounts ChangeIffPositive EvenSplit SweepKeepsFunds
+  PropOutputs <- PropOutputs3
+  PropTxStates <- TxStates
+  PropDepOptions = {"absent", "b1", "b2", "noreq"}
+  PropWrongAll = TRUE
+  PropMainVals = {13}
+  PropMaxKeys = 3
+  PropScripts = {"rA", "rB", "rC"}
+  PropReqVals = {4, 9}
+  PropFees = {5}
+  PropShapes = {"default", "last"}
+INVARIANTS TypeOK ErrorsExactlyWhenDocumented InputsExact FeeConservation SharesSumToFee ScriptsIntended RedeemerAmounts ChangeIffPositive EvenSplit SweepKeepsFunds SweepSpendsNamedUtxos SweepProposalErrors RedemptionPaysNamedRequests RedemptionProposalErrors
